@@ -1,3 +1,5 @@
 pub mod common;
 pub mod c01;
 pub mod c02;
+pub mod written;
+pub mod c09;
